@@ -102,10 +102,17 @@ func (r *RaceLog) Grown() string {
 		return ""
 	}
 	defer f.Close()
-	buf := make([]byte, st.Size()-r.size)
+	n := st.Size() - r.size
+	trunc := ""
+	if n > 1<<20 {
+		// reports with stacks of thousands of frames (a race deep inside a recursive walk) run to hundreds of megabytes
+		trunc = fmt.Sprintf("\n[... %d more bytes of race reports for this run not read]\n", n-1<<20)
+		n = 1 << 20
+	}
+	buf := make([]byte, n)
 	f.ReadAt(buf, r.size)
 	r.size = st.Size()
-	return string(buf)
+	return string(buf) + trunc
 }
 
 // Tester decides whether a candidate (plan, choices) still shows the violation.
